@@ -66,6 +66,14 @@ pub fn build_pass_1(
     })
 }
 
+/// Moves a location counter forward, failing when it leaves the 32-bit address space
+fn advance(address: u32, size: u64, line: &CodePoint) -> Result<u32, Error> {
+    match (address as u64).checked_add(size) {
+        Some(end) if end <= std::u32::MAX as u64 => Ok(end as u32),
+        _ => bail!("address space exhausted, {}", line),
+    }
+}
+
 fn pass_1_internal(
     segment: &Segment,
     address: u32,
@@ -93,7 +101,7 @@ fn pass_1_internal(
             }
             Item::Instruction(op, _) => match segment.t {
                 SegmentType::Code => {
-                    cur_address += op.info(common_context).len;
+                    cur_address = advance(cur_address, op.info(common_context).len as u64, line)?;
                     out_items.push((*line, item.clone()));
                 }
                 _ => bail!(
@@ -109,19 +117,20 @@ fn pass_1_internal(
                 DataDefine::Db => {
                     let mut items = items.clone();
 
-                    cur_address += match segment.t {
+                    let size = match segment.t {
                         SegmentType::Code => {
                             (if items.actual_len() % 2 == 1 {
                                 items.push(Operand::E(Expr::Const(0x0)));
                                 items.actual_len()
                             } else {
                                 items.actual_len()
-                            }) as u32
+                            }) as u64
                                 / 2
                         }
-                        SegmentType::Eeprom => items.actual_len() as u32,
+                        SegmentType::Eeprom => items.actual_len() as u64,
                         _ => bail!(".db are not allowed in data segment, {}", line),
                     };
+                    cur_address = advance(cur_address, size, line)?;
 
                     out_items.push((*line, Item::Data(DataDefine::Db, items)));
                 }
@@ -132,18 +141,22 @@ fn pass_1_internal(
                         DataDefine::Dq => 8,
                         _ => 0,
                     };
-                    cur_address += match segment.t {
-                        SegmentType::Code => items.len() as u32 * (item_size / 2),
-                        SegmentType::Eeprom => items.len() as u32 * item_size,
+                    let size = match segment.t {
+                        SegmentType::Code => items.len() as u64 * (item_size / 2),
+                        SegmentType::Eeprom => items.len() as u64 * item_size,
                         _ => bail!(".dw are not allowed in data segment, {}", line),
                     };
+                    cur_address = advance(cur_address, size, line)?;
 
                     out_items.push((*line, item.clone()));
                 }
             },
             Item::ReserveData(size) => match segment.t {
                 SegmentType::Data | SegmentType::Eeprom => {
-                    cur_address += *size as u32;
+                    if *size < 0 {
+                        bail!(".byte needs a non-negative size, {}", line);
+                    }
+                    cur_address = advance(cur_address, *size as u64, line)?;
                     if segment.t == SegmentType::Eeprom {
                         out_items.push((*line, item.clone()));
                     }
